@@ -107,17 +107,19 @@ def check_geom(case, ctx):
 # ---- (b) random cases through every route --------------------------------------------------------
 def _shift_axis():
     return st.one_of(st.just(0), st.just(0), st.integers(-5, 5), st.integers(-10, 10).map(lambda k: k / 2),
-                     U.nice_float(-6, 6).map(lambda v: round(v, 3)))
+                     U.nice_float(-6, 6).map(lambda v: round(v, 3)), st.sampled_from([-1000, 137.25, 999.5]))
 
 
 def _Q():
-    q1 = st.one_of(st.integers(1, 4), U.nice_float(0.3, 4).map(lambda v: round(v, 3)), st.sampled_from([1, 2, 1.5, 0.5]))
+    q1 = st.one_of(st.integers(1, 4), U.nice_float(0.3, 4).map(lambda v: round(v, 3)), st.sampled_from([1, 2, 1.5, 0.5]),
+                   st.sampled_from([0.05, 0.11, 8, 25.5, 4 / 3, 16 / 15]))
     return st.one_of(q1, st.tuples(q1, q1).map(list))
 
 
 def strat_routes(tier):
     nmax = {'quick': 16, 'thorough': 40}[tier]
-    ax = U.axis_len(nmax)
+    # mostly small axes (the O(N^2) oracle), now and then a long, awkward one (prime, power of two +- 1)
+    ax = st.one_of(U.axis_len(nmax), U.axis_len(nmax), U.axis_len(nmax), U.axis_len(nmax), st.sampled_from([64, 97, 127, 129, 150]))
     return st.fixed_dictionaries({
         'shape': st.one_of(st.tuples(ax, ax).map(list), ax.map(lambda k: [k, k])),
         'out': st.one_of(st.tuples(ax, ax).map(list), ax, ax.map(lambda k: [k, k])),
@@ -172,6 +174,15 @@ def check_routes(case, ctx):
     ctx.label('via:' + via, 'prec%d' % prec, dtype, 'shifted' if shifted else 'unshifted', 'square' if square else 'nonsquare',
               'peraxisQ' if isinstance(Q, tuple) else 'scalarQ', 'fwd' if fwd else 'inv', 'kind:' + case['kind'], 'layout:' + case.get('layout', 'C'))
     tol = _tol(prec, dtype)
+    single = prec == 32 or dtype in ('float32', 'complex64')
+    qs = U.as_pair(Q)
+    if single and (max(abs(v) for v in shift) > 20 or max(max(shape), max(outp)) > 48 or min(qs) < 0.2 or max(qs) > 10):
+        # single precision cannot hold the phase of these arguments to the stated tolerance (the error grows with |shift|,
+        # the axis length and 1/Q); the extreme classes are exercised at double precision only
+        ctx.exclude('extreme arguments at single precision')
+    # the transform kernel's largest phase, 2 pi (n/2+|s|)(m/2+|s|)/(n Q): double precision resolves it to ~1e-16 of its size
+    arg = max(2 * math.pi * (shape[k] / 2 + abs(shift[1 - k])) * (outp[k] / 2 + abs(shift[1 - k])) / (shape[k] * qs[k]) for k in (0, 1))
+    tol = max(tol, 1e-13 * arg)
     with U.precision(prec):
         if via == 'executor':
             Qpair = U.as_pair(Q)
